@@ -49,7 +49,7 @@ def generate(rng):
     prim = {"id": "p0", "kind": pk, "params": params, "dtype": rng.choice([None, None, "float64"])}
     dk = rng.choice(KINDS)
     call = True if dk in ("AmericanBinaryOption", "LookbackOption") else rng.chance(0.6)
-    steps = rng.choice([1, 2, 3, 5, 10, 20])
+    steps = rng.nsteps([1, 2, 3, 5, 10, 20])
     d = {"id": "d0", "kind": dk, "underlier": "p0", "params": {"call": call, "strike": rng.choice([0.8, 0.95, 1.0, 1.0, 1.05, 1.25]),
                                                              "maturity": steps * dt}}
     lk = rng.choice(KINDS)
@@ -58,7 +58,7 @@ def generate(rng):
                          "strike": rng.choice([0.9, 1.0, 1.1]), "maturity": steps * dt},
               "listed": {"pricer": "bsbound", "cost": rng.choice(COSTS)}}
     world = {"primaries": [prim], "derivatives": [d, listed], "models": [], "criteria": [], "hedgers": []}
-    ops = [{"op": "simulate", "n_paths": rng.choice([1, 2, 4, 8]), "torch_seed": rng.seed31()}]
+    ops = [{"op": "simulate", "n_paths": rng.npaths([1, 2, 4, 8]), "torch_seed": rng.seed31()}]
     for _ in range(rng.randint(2, 7)):
         k = rng.wchoice([("hedger", 5), ("bound", 4), ("shock", 2), ("listed_pl", 2), ("simulate", 1)])
         if k == "hedger":
